@@ -266,6 +266,17 @@ def run(tier, seed):
                     D.bad.append("%s: tools and laue return different reflection lists %s" % (fn, note))
         kw = dict(crystal_system=t["crystal_system"], Laue_class=t["Laue"], cell_choice=t["cell_choice"], output_stl=True)
         D.run("genhkl_base", [cell, t["syscond"], smin, smax], kwargs=kw, note=note)
+        # every way of giving (or not giving) the output_stl flag: both modules must return the same columns
+        for flag in (None, False, 0, "absent"):
+            kw2 = dict(kw)
+            if flag == "absent":
+                kw2.pop("output_stl")
+            else:
+                kw2["output_stl"] = flag
+            D.run("genhkl_base", [cell, t["syscond"], smin, smax], kwargs=kw2, note=note + " output_stl=%r" % (flag,))
+            if i % 4 == 0:
+                D.run("genhkl", [cell, t["syscond"], smin, smax], kwargs=dict(crystal_system=t["crystal_system"], **({} if flag == "absent" else {"output_stl": flag})),
+                      note=note + " output_stl=%r" % (flag,))
         if True:        # the older generator: every crystal system (the system reaches sysabs, which permutes indices for trigonal/hexagonal/cubic)
             D.run("genhkl", [cell, t["syscond"], smin, smax], kwargs=dict(crystal_system=t["crystal_system"], output_stl=True), note=note)
         for (h, ty, tu) in byi[i]["sysabs"]["judge"]["types"][:60]:
